@@ -296,7 +296,7 @@ def run(tier, seed):
             if c["rows"] is None:
                 V.add("state:tableau=True:malformed", f"tableau of shape {np.shape(tab)} for {n} wires: {describe(c)}", {"case": c["ops"]})
             c["tape_perm"] = tape_perm
-            if c["devwires"] and tape_perm != list(range(n)) and (not standard or len(order) < n):
+            if c["devwires"] and tape_perm != list(range(n)):
                 c["alt"], _ = tableau_rows(tab, n, tape_perm)      # the same tableau read in the tape's order of first use
         except Exception as e:  # noqa: BLE001
             c["exc"] = e
